@@ -231,6 +231,7 @@ class AVOID_EXPORT ConnEnd
         friend class ShapeConnectionPin;
         friend class HyperedgeImprover;
         friend class CrossingConnectorsInfo;
+        friend struct CmpConnEndPtrByConn;
 
         void connect(ConnRef *conn);
         void disconnect(const bool shapeDeleted = false);
